@@ -28,8 +28,9 @@ type limitRoles struct {
 	p      *Prog
 	d      *Disc
 	entry  *ssa.Function
-	batch  *ssa.Function // contains the input receive
+	batch  *ssa.Function // contains the batch loop around the input receive
 	src    *RecvSite
+	anchor ssa.Instruction // in batch: the receive, or the call of the per-element helper that holds it
 	outer  *ssa.Function // contains the unbounded loop calling (transitively) batch and sleep
 	sleeps []*ssa.Call
 }
@@ -37,6 +38,7 @@ type limitRoles struct {
 // optsUnmodified: the constructor stores the caller's Opts (in particular the Limit) as given.
 func optsUnmodified(c *Ctx, lr *limitRoles, rule string) {
 	p := lr.p
+	foundAny := false
 	for _, ctor := range lr.d.Ctors {
 		found := false
 		for _, b := range ctor.Blocks {
@@ -45,8 +47,8 @@ func optsUnmodified(c *Ctx, lr *limitRoles, rule string) {
 				if !ok || rootStructOf(st.Addr.(*ssa.FieldAddr)) != lr.d.Named {
 					continue
 				}
-				found = true
-				s := p.Sym(st.Val)
+				found, foundAny = true, true
+				s := p.upParam(p.Sym(st.Val), 0) // (stored by a private builder the constructor hands them to)
 				okPlain := s.Op == "param"
 				c.R.Check(okPlain, rule, p.FnKey(ctor)+"#opts", p.InstrPos(in), "options stored as given", "the constructor stores modified options ("+s.String()+"): the discipline then runs at a different rate than the one configured")
 			}
@@ -55,11 +57,12 @@ func optsUnmodified(c *Ctx, lr *limitRoles, rule string) {
 			// no options field: the struct caches the single options it needs (see derived.go); what
 			// each cache holds is what the other rules see in place of the field
 			c.R.Check(v.Op == "param", rule, p.FnKey(ctor)+"#opts", p.Pos(ctor.Pos()), "the needed options are cached as given", "the constructor caches options read from modified options ("+v.String()+"): the discipline then runs at a different rate than the one configured")
+			foundAny = true
 			continue
 		}
-		if !found {
-			c.R.Fail(rule, p.FnKey(ctor)+"#opts", p.Pos(ctor.Pos()), "UNDECIDED: the constructor does not store the options")
-		}
+	}
+	if !foundAny {
+		c.R.Fail(rule, p.FnKey(lr.d.Ctors[0])+"#opts", p.Pos(lr.d.Ctors[0].Pos()), "UNDECIDED: the constructor does not store the options")
 	}
 	// and nobody writes them later
 	for _, fn := range p.Funcs() {
@@ -106,6 +109,30 @@ func resolveLimit(c *Ctx, rule string) *limitRoles {
 	if lr.src == nil {
 		c.R.Fail(rule, "v2:limit#recv", "-", "UNRESOLVED-ANCHOR: no receive from Opts.Input in the limit goroutine")
 		return nil
+	}
+	// the body of the batch loop may sit in a per-element helper (for range Quantity { if stop :=
+	// dsc.relay(input); stop { ... } }): the batch function is the one that holds the loop
+	lr.anchor = lr.src.In
+	inRt := map[*ssa.Function]bool{}
+	for _, fn := range rt.Funcs {
+		inRt[fn] = true
+	}
+	for depth := 0; depth < 3 && !blockInLoop(lr.anchor.Block()); depth++ {
+		var site ssa.CallInstruction
+		n := 0
+		for _, cs := range p.CallSites(lr.batch) {
+			if _, isGo := cs.(*ssa.Go); !isGo && inRt[p.Norm(cs.Parent())] {
+				site = cs
+				n++
+			}
+		}
+		if n != 1 {
+			break
+		}
+		lr.anchor, lr.batch = site, p.Norm(site.Parent())
+	}
+	if !blockInLoop(lr.anchor.Block()) {
+		lr.anchor, lr.batch = lr.src.In, p.Norm(lr.src.In.Parent())
 	}
 	// outer loop function: a function in the routine with an unbounded cycle from which batch is reachable
 	for _, fn := range rt.Funcs {
@@ -428,7 +455,7 @@ func limitSleepShape(c *Ctx, lr *limitRoles, rule string, strict bool) {
 		}
 		if fn == lr.batch {
 			// readings inside the batch function: t0 must dominate the loop, tEnd must follow it
-			if !t0i.Block().Dominates(lr.src.In.Block()) || blockInLoop(t0i.Block()) {
+			if !t0i.Block().Dominates(lr.anchor.Block()) || blockInLoop(t0i.Block()) {
 				problems = append(problems, "start time is read at "+p.InstrPos(t0i)+" which is not before the first receive of the batch")
 			}
 			return
@@ -669,7 +696,7 @@ func limitBatchLoop(c *Ctx, lr *limitRoles, rule string) {
 	var loop map[*ssa.BasicBlock]bool
 	for _, comp := range comps {
 		set := blockSet(comp)
-		if set[lr.src.In.Block()] {
+		if set[lr.anchor.Block()] {
 			if loop != nil {
 				problems = append(problems, "UNDECIDED: receive is in more than one loop")
 			}
@@ -705,7 +732,7 @@ func limitBatchLoop(c *Ctx, lr *limitRoles, rule string) {
 				}
 			}
 			wantLC := int64(1)
-			if b.Dominates(lr.src.In.Block()) {
+			if b.Dominates(lr.anchor.Block()) {
 				wantLC = 0
 			}
 			if cmp.Op == token.LSS && okp && strings.Join(path, ".") == "opts.Limit.Quantity" && cmp.RC == 0 {
@@ -726,7 +753,7 @@ func limitBatchLoop(c *Ctx, lr *limitRoles, rule string) {
 				}
 			}
 			for _, sub := range sccs(restList, rest) {
-				if blockSet(sub)[lr.src.In.Block()] {
+				if blockSet(sub)[lr.anchor.Block()] {
 					problems = append(problems, "the receive sits in an inner loop: several elements can pass per counted iteration")
 				}
 			}
